@@ -441,10 +441,22 @@ func (w *world) makeBlock(parent *types.Block, specs []txSpec, bits uint32) (*ty
 	return blk, invalid, kinds
 }
 
+func hasKind(kinds []string, k string) bool {
+	for _, x := range kinds {
+		if x == k {
+			return true
+		}
+	}
+	return false
+}
+
 // noteRefused remembers the validly signed single transactions of a block the follower refused.
 func (w *world) noteRefused(b *types.Block) {
 	for _, tx := range b.Txs {
-		if tx.GroupCount == 0 && tx.Signature != nil && tx.CheckSign(b.Height) && !everPooled[string(tx.Hash())] {
+		// only transactions that are legal by themselves (the recipes' illegal ones -- wrong chain id, low fee, expiry -- are
+		// validly signed too)
+		if tx.GroupCount == 0 && tx.Signature != nil && tx.Expire == 0 && tx.ChainID == w.cfg.GetChainID() && tx.Fee >= 1e6 &&
+			tx.CheckSign(b.Height) && !everPooled[string(tx.Hash())] {
 			w.rejected = append(w.rejected, cloneTx(tx))
 		}
 	}
@@ -562,7 +574,9 @@ func runCase(t lib.TB, test string, c caseSpec) outcome {
 				o.rejectedOK++
 				w.noteRefused(b)
 			}
-		} else if !accepted {
+		} else if !accepted && !hasKind(kinds, "rejAgain") {
+			// (a block re-offering a transaction of an earlier refused block is not asserted to be accepted: whether that
+			// transaction is still executable is not the harness's to predict; the chain scan judges what was accepted)
 			lib.Violation(t, prop, test, c, "step %d: an honest valid block %v was not accepted as the new tip (err=%v)", si, kinds, err)
 		}
 		return accepted
